@@ -14,7 +14,7 @@ THEOREMS = ["Cxx.C04_well_nested", "Cxx.C04_parse_start_first", "Cxx.C04_fault_t
             "Cxx.C04_parser_well_nested", "Cxx.C04_parser_fault", "Cxx.fault_sim", "Cxx.nest_sim", "Cxx.interp_extends", "Cxx.C04_each_payload_stored_once", "Cxx.C04_block_end", "Cxx.C04_toplevel_block_end",
     "Cxx.C04_namespace_block",
     "Cxx.C04_extern_block",
-]
+, "Cxx.C04_whole_source_fault"]
 ANCHORS = ["parser.py:CxxParser._setup_state", "parser.py:CxxParser._pop_state", "parser.py:CxxParser.parse", "parser.py:CxxParser.__init__",
            "parser.py:CxxParser._on_block_end", "parser.py:CxxParser._parse_namespace", "parser.py:CxxParser._parse_extern", "parser.py:CxxParser._parse_class_decl",
            "parser.py:CxxParser._consume_balanced_tokens", "parser.py:CxxParser._consume_value_until", "parser.py:CxxParser._discard_contents",
@@ -23,6 +23,7 @@ RULE = ("histories of generated programs, class programs, the test corpus and mu
         "(nesting, identities, parents, kinds per signature) runs on the implementation's stream, and a callback is made to raise "
         "at every position (quick: a sample of positions); non-trivial = history with at least one block")
 CARRIED_BY = {
+    "whole sources under a visitor that raises: for a source that is an Item, the run in which the i-th delivered callback raises delivers exactly the first i+1 callbacks of on_parse_start followed by the item's callbacks and fails with that exception": "theorem C04_whole_source_fault (composition of parse_source with the generic fault theorem and the history-growth theorem interp_extends)",
     'block callbacks are paired around their contents for the same block, to any nesting depth: `namespace N { body }` and `extern "L" { body }`, body ANY item (so further blocks to any depth, sequences of any length), from any state at non-class scope with an active visitor: one start callback for a fresh block that is a child of the enclosing block, the body\'s callbacks inside THAT block, one end callback for the same block, and the block stack afterwards is exactly what it was': 'theorems C04_namespace_block (Item.ns.sound), C04_extern_block (Item.externBlock.sound) — Theorems/ItemKinds.lean over Items.lean; class blocks: C03_class_source',
     "`}` closing a namespace / extern block ends exactly the innermost open block (its own state id, parent = enclosing block), pops exactly it and restores the visitor in force before it": "theorems C04_block_end (Theorems/BlockEnd.lean), C04_toplevel_block_end (through one iteration of the parse loop)",
     "nesting, identities, parents, completeness of ends": "theorem C04_well_nested / nest_sim (any client, any input)",
